@@ -14,6 +14,24 @@ func init() { rt.Register("C06", jobC06) }
 
 var c06Kinds = []string{"good", "wrong-msg", "R-bitflip", "S-bitflip", "key-bitflip", "S+L", "S-top-slice-valid", "small-order-key", "small-order-R", "undecodable-key", "undecodable-R", "key31", "key-nil", "sig63", "sig-nil", "bad-prehash-or-nil-msg"}
 
+// entries that are valid signatures under ANOTHER variant / context than the batch's options
+var c06CrossKinds = []string{"signed-as-pure", "signed-as-ctx-c", "signed-as-ctx-d", "signed-as-ph", "signed-as-ph-d"}
+
+func crossSpec(kind string) variantSpec {
+	switch kind {
+	case "signed-as-pure":
+		return vPure
+	case "signed-as-ctx-c":
+		return vCtx
+	case "signed-as-ctx-d":
+		return variantSpec{ref.Ctx, "d"}
+	case "signed-as-ph":
+		return vPh
+	default:
+		return variantSpec{ref.Ph, "d"}
+	}
+}
+
 var (
 	undecodableStr []byte
 	c06Memo        = map[string]triple{}
@@ -42,6 +60,14 @@ func mkEntry(kind string, slot int, vs variantSpec) triple {
 	g := honestTriple(5000+s, msgOf(s, vs), vs)
 	cp := func(b []byte) []byte { return append([]byte{}, b...) }
 	t := triple{cp(g.key), cp(g.msg), cp(g.sig)}
+	if len(kind) > 10 && kind[:10] == "signed-as-" {
+		// a genuine signature over a 64-byte message under another variant/context
+		m := msgOf(s, vPh)
+		e := honestTriple(5000+s, m, crossSpec(kind))
+		t = triple{cp(e.key), cp(e.msg), cp(e.sig)}
+		c06Memo[key] = t
+		return t
+	}
 	switch kind {
 	case "good":
 	case "wrong-msg":
@@ -350,6 +376,43 @@ func jobC06(c *rt.Ctx) {
 							}
 						}
 					}
+				}
+			}
+		}
+	}
+	// homogeneous chunks: EVERY entry of a chunk is bad in the same way (no valid entry forces the
+	// equation to fail, so the chunk is decided by the batch equation alone), incl. entries that are
+	// genuine signatures under another variant / context
+	c.Require("homogeneous")
+	hk := append(append([]string{}, c06Kinds[1:]...), c06CrossKinds...)
+	for _, n := range []int{4, 5, 8, 64, 68, 132} {
+		for ki, kind := range hk {
+			for oi, o := range opts {
+				if n > 8 && !c.Thorough() && (ki+n)%len(opts) != oi {
+					continue
+				}
+				for where := 0; where < 2; where++ {
+					if where == 1 && n < 68 {
+						continue
+					}
+					if !c.Take() {
+						continue
+					}
+					bad := map[int]string{}
+					lo, hi := 0, n
+					if where == 1 {
+						lo = 64 // only the last batched chunk is homogeneous, the first is all good
+					}
+					if n >= 68 && where == 0 {
+						hi = 64
+					}
+					for i := lo; i < hi; i++ {
+						bad[i] = kind
+					}
+					es, ks := build(n, bad, o.vs)
+					c.Class("homogeneous")
+					c.Distinct(fmt.Sprintf("hom %d %s %d %d", n, kind, oi, where), true)
+					checkBatch(c, "homogeneous", es, ks, o.vs, o.zip, (n+ki)%2, fmt.Sprintf("hom-%d-%d", n, ki))
 				}
 			}
 		}
